@@ -1,4 +1,6 @@
 import MazeVerif.Lemmas.Dataset
+import MazeVerif.Lemmas.DatasetGen
+import MazeVerif.Lemmas.DatasetLocal
 import MazeVerif.Props.C12
 import MazeVerif.Props.C02
 /-! # C03 — every item of a generated dataset is a correctly solved maze
@@ -8,7 +10,14 @@ Model: `Model/Dataset.lean`. The per-item theorem holds for every well-formed ma
 fuel — hence for whatever draw stream a serial run or a worker process happens to use. The generator instantiations
 (`C03_*_component_ok`) hold for EVERY `start_coord` a config's `maze_ctor_kwargs` may carry: one outside the grid makes
 the generator raise ValueError at generation time (`C01_start_rejected`; no dataset is produced), any other start is in
-the grid (`C01_start_in_grid_of_success`). -/
+the grid (`C01_start_in_grid_of_success`).
+
+Dataset level (`Model/DatasetGen.lean`): `generateSerial cfg genFuel solveFuel n streams` runs the helper `n` times on ONE
+shared stream, each call starting on what the previous one left. `C03_dataset_items_ok` connects the ITEMS of such a run
+to the per-item theorems (every item, every generator, every stream, every `n`), `C03_dataset_count`,
+`C03_dataset_prefix`, `C03_dataset_item_at`, `C03_dataset_split` are the "exactly n items, in index order" part, and
+`C03_full_dataset_holds` assembles them. `C03_count` is kept but is only the definitional lemma about
+`(List.range n).map item`; it says nothing about the items. -/
 namespace MZ
 open MZ.AStar
 
@@ -114,7 +123,10 @@ theorem C03_item {rows cols E comp o s e picks fuel sol} (hwf : WF rows cols E) 
     · simp at h
   · simp at h
 
-/-- count and order: `generate` returns exactly `n_mazes` items, the i-th being the i-th helper call's result -/
+/-- DEFINITIONAL lemma (kept for reference, NOT the dataset-level claim): `generateDataset n item` is by definition
+    `(List.range n).map item` for an ARBITRARY `item`, so this only restates `List.length_map` / `List.getElem_map`; it
+    does not say what the items are nor how they share the random stream. The dataset-level statements about the real
+    serial generation are `C03_dataset_count`, `C03_dataset_items_ok`, `C03_dataset_prefix`, `C03_dataset_item_at` below. -/
 theorem C03_count {α} (n : Nat) (item : Nat → α) :
     (generateDataset n item).length = n ∧ ∀ i (h : i < (generateDataset n item).length), (generateDataset n item)[i] = item i := by
   simp [generateDataset]
@@ -216,6 +228,180 @@ theorem C03_wilson_item {rows cols : Nat} (hr : 0 < rows) (hc : 0 < cols) {draws
     ItemOK rows cols w.E s e sol ∧ EndpointsHonoured rows cols w.E (metaComponent rows cols true []) opts s e :=
   C03_item (C03_wilson_component_ok hr hc h).1 (C03_wilson_component_ok hr hc h).2 hs
 
+
+/-! ## dataset level: serial generation on ONE shared stream (`Model/DatasetGen.lean`) -/
+
+/-- the per-item statement, for an item of a dataset generated from `cfg`: the maze is well formed, the component its
+    metadata gives is sound, the stored solution is a correct shortest simple route between `start_pos` and `end_pos`
+    (`ItemOK`, what `C03_item` concludes) and the endpoint options of the config are honoured -/
+def DatasetItemOK (cfg : DatasetCfg) (it : Item) : Prop :=
+  WF cfg.rows cfg.cols it.edges ∧ ComponentOK cfg.rows cfg.cols it.edges it.comp ∧
+  ItemOK cfg.rows cfg.cols it.edges it.s it.e it.sol ∧
+  EndpointsHonoured cfg.rows cfg.cols it.edges it.comp cfg.opts it.s it.e
+
+/-- every generator call on the shared streams (any generator, any arguments, any stream position) returns a well-formed
+    maze with a sound component: the four `C03_*_component_ok` theorems, dispatched on the configured generator -/
+private theorem genMaze_ok {rows cols : Nat} (hr : 0 < rows) (hc : 0 < cols) {g draws rands fuel m}
+    (h : genMaze rows cols g draws rands fuel = some m) :
+    WF rows cols m.edges ∧ ComponentOK rows cols m.edges m.comp := by
+  unfold genMaze at h
+  cases g with
+  | dfs a given =>
+    simp only [Option.map_eq_some_iff] at h
+    obtain ⟨o, ho, rfl⟩ := h
+    exact C03_dfs_component_ok hr hc ho
+  | prim a given =>
+    simp only [Option.map_eq_some_iff] at h
+    obtain ⟨o, ho, rfl⟩ := h
+    exact C03_dfs_component_ok hr hc (a := { a with randStack := true }) ho
+  | wilson =>
+    simp only [Option.map_eq_some_iff] at h
+    obtain ⟨w, hw, rfl⟩ := h
+    exact C03_wilson_component_ok hr hc hw
+  | percolation p given =>
+    simp only at h
+    split at h
+    · next o _ ho =>
+      simp only [Option.some.injEq] at h; subst h
+      exact C03_percolation_component_ok hr hc ho
+    · exact absurd h (by simp)
+  | dfsPercolation p a given =>
+    simp only at h
+    split at h
+    · next d o _ ho =>
+      simp only [Option.some.injEq] at h; subst h
+      exact C03_dfsperc_component_ok hr hc ho
+    · exact absurd h (by simp)
+
+/-- ONE helper call on the shared streams, wherever in the stream it starts: its item satisfies the per-item statement.
+    No hypothesis on the grid: `generate_random_path` asserts both sides > 1, a call on a smaller grid returns nothing. -/
+private theorem serialItem_ok {cfg : DatasetCfg} {gf sf : Nat} {st : Streams} {it : Item} {st' : Streams}
+    (h : serialItem cfg gf sf st = some (it, st')) : DatasetItemOK cfg it := by
+  unfold serialItem at h
+  split at h
+  · exact absurd h (by simp)
+  · next m hm =>
+    split at h
+    · next hg =>
+      have hok := genMaze_ok (by omega) (by omega) hm
+      split at h
+      · exact absurd h (by simp)
+      · next ob obs' _ =>
+        split at h
+        · exact absurd h (by simp)
+        · split at h
+          · next sol hsol =>
+            simp only [Option.some.injEq, Prod.mk.injEq] at h
+            obtain ⟨rfl, _⟩ := h
+            obtain ⟨h1, h2⟩ := C03_item hok.1 hok.2 hsol
+            exact ⟨hok.1, hok.2, h1, h2⟩
+          · exact absurd h (by simp)
+    · exact absurd h (by simp)
+
+/-- COUNT: a serial run for `n` mazes that returns, returns exactly `n` items -/
+theorem C03_dataset_count {cfg : DatasetCfg} {gf sf n : Nat} {st : Streams} {its left}
+    (h : generateSerial cfg gf sf n st = some (its, left)) : its.length = n :=
+  generateSerial_length h
+
+/-- ITEMS: EVERY item of EVERY serial run satisfies the per-item statement — for all configurations (all five
+    generators with all their arguments, any `start_coord`, any endpoint options, any grid), all `n`, all shared draw /
+    rand streams, all observed endpoint choices and picks, all fuels. Induction on `n` (`generateSerial_forall`) over the
+    per-item theorem `C03_item` and the generator instantiations `C03_*_component_ok`. -/
+theorem C03_dataset_items_ok {cfg : DatasetCfg} {gf sf n : Nat} {st : Streams} {its left}
+    (h : generateSerial cfg gf sf n st = some (its, left)) : ∀ it ∈ its, DatasetItemOK cfg it :=
+  generateSerial_forall (P := DatasetItemOK cfg) (fun _ _ _ hs => serialItem_ok hs) h
+
+/-- PREFIX ("in index order", part 1): the first `k` items of the run for `n` mazes are exactly the run for `k` mazes on
+    the SAME streams — item `i` depends only on what the items before it consumed, never on `n` or on later items; and the
+    remaining `n - k` items are a run on what those `k` left -/
+theorem C03_dataset_prefix {cfg : DatasetCfg} {gf sf n k : Nat} {st : Streams} {its left} (hk : k ≤ n)
+    (h : generateSerial cfg gf sf n st = some (its, left)) :
+    ∃ mid, generateSerial cfg gf sf k st = some (its.take k, mid) ∧
+      generateSerial cfg gf sf (n - k) mid = some (its.drop k, left) :=
+  generateSerial_take hk h
+
+/-- INDEX ORDER, part 2: item `i` is what ONE call of the helper returns when started on the streams the run of the first
+    `i` items left -/
+theorem C03_dataset_item_at {cfg : DatasetCfg} {gf sf n : Nat} {st : Streams} {its left}
+    (h : generateSerial cfg gf sf n st = some (its, left)) (i : Nat) (hi : i < its.length) :
+    ∃ mid after, generateSerial cfg gf sf i st = some (its.take i, mid) ∧
+      serialItem cfg gf sf mid = some (its[i], after) := by
+  obtain ⟨pre, mid, after, h1, rfl, h2⟩ := generateSerial_getElem h i hi
+  exact ⟨mid, after, h1, h2⟩
+
+/-- SPLIT: generating `k + m` mazes is generating `k` and then `m` more on the leftover streams (as an equation between
+    the two computations, failures included) -/
+theorem C03_dataset_split (cfg : DatasetCfg) (gf sf k m : Nat) (st : Streams) :
+    generateSerial cfg gf sf (k + m) st =
+      (generateSerial cfg gf sf k st).bind fun r =>
+        (generateSerial cfg gf sf m r.2).map fun q => (r.1 ++ q.1, q.2) :=
+  generateSerial_add cfg gf sf k m st
+
+/-- STREAM USE: a serial run consumes a PREFIX of each shared stream — what it leaves is a suffix of what it was given
+    (draws, rands, observations) — at least two draws per item (the endpoint indices) and exactly one observation per
+    item. Together with `C03_dataset_prefix`: the `k`-th call starts exactly where the first `k` calls stopped. -/
+theorem C03_dataset_consumes_prefix {cfg : DatasetCfg} {gf sf n : Nat} {st : Streams} {its left}
+    (h : generateSerial cfg gf sf n st = some (its, left)) :
+    left.draws <:+ st.draws ∧ left.rands <:+ st.rands ∧ left.obs <:+ st.obs ∧
+      left.draws.length + 2 * n ≤ st.draws.length ∧ st.obs.length = left.obs.length + n :=
+  let ⟨⟨h1, h2, h3⟩, h4, h5⟩ := generateSerial_leftOf h
+  ⟨h1, h2, h3, h4, h5⟩
+
+/-- LOCALITY: a serial run reads the shared streams ONLY through the prefix `used` it consumes (`st = used ++ left`,
+    stream by stream): on ANY other continuation `t` of that prefix — different later draws, more or fewer of them — the
+    same items come out and exactly `t` is left. So no item depends on a draw that comes after it. -/
+theorem C03_dataset_local {cfg : DatasetCfg} {gf sf n : Nat} {st : Streams} {its left}
+    (h : generateSerial cfg gf sf n st = some (its, left)) :
+    ∃ used : Streams, st = used.app left ∧ ∀ t, generateSerial cfg gf sf n (used.app t) = some (its, t) :=
+  generateSerial_local h
+
+/-- "item `i` depends only on the draws before it", literally: the first `k` items of the run for `n` mazes are
+    determined by the prefix `used` of the streams the first `k` calls consume — they are what the run for `k` mazes
+    returns on `used` followed by ANYTHING -/
+theorem C03_dataset_prefix_local {cfg : DatasetCfg} {gf sf n k : Nat} {st : Streams} {its left} (hk : k ≤ n)
+    (h : generateSerial cfg gf sf n st = some (its, left)) :
+    ∃ used mid : Streams, st = used.app mid ∧ ∀ t, generateSerial cfg gf sf k (used.app t) = some (its.take k, t) := by
+  obtain ⟨mid, h1, _⟩ := C03_dataset_prefix hk h
+  obtain ⟨used, e, f⟩ := generateSerial_local h1
+  exact ⟨used, mid, e, f⟩
+
+/-- the solver's `ValueError` ("A solution could not be found") is unreachable for every maze a serial run builds,
+    whatever endpoints and picks are observed: `C03_reachable` at the dataset level -/
+theorem C03_dataset_no_path_error {rows cols : Nat} (hr : 0 < rows) (hc : 0 < cols) {g draws rands fuel m}
+    (h : genMaze rows cols g draws rands fuel = some m) (o : EndpointOpts) (s e : Cell) (picks : List Cell) (sf : Nat) :
+    solveItem rows cols m.edges m.comp o s e picks sf ≠ .error .noPath :=
+  C03_reachable (genMaze_ok hr hc h).1 (genMaze_ok hr hc h).2
+
+/-- DETERMINISM is trivial and carries no content beyond the model being a function: `generateSerial` is a Lean function
+    of (config, fuels, n, streams), so equal inputs give equal outputs by `congr`/`rfl`. What makes the real code
+    deterministic — that the streams are a function of the seed — is C06's subject, not this theorem's. -/
+theorem C03_dataset_deterministic {cfg : DatasetCfg} {gf sf n : Nat} {st : Streams} {r₁ r₂}
+    (h₁ : generateSerial cfg gf sf n st = r₁) (h₂ : generateSerial cfg gf sf n st = r₂) : r₁ = r₂ :=
+  h₁.symm.trans h₂
+
+/-- the dataset-level statement of C03 for serial generation: whenever the run for `n` mazes on ONE shared stream
+    returns, it returns exactly `n` items, every one of them a correctly solved maze honouring the endpoint options, and
+    for every `k ≤ n` its first `k` items are the run for `k` mazes on the same streams, item `i` is one helper call on what the
+    first `i` calls left, what the run leaves of each stream is a suffix of what it got, and the first `k` items are a function
+    of the prefix of the streams the first `k` calls consume (whatever follows that prefix) -/
+def C03_full_dataset : Prop :=
+  ∀ (cfg : DatasetCfg) (gf sf n : Nat) (st : Streams) (its : List Item) (left : Streams),
+    generateSerial cfg gf sf n st = some (its, left) →
+      its.length = n ∧ (∀ it ∈ its, DatasetItemOK cfg it) ∧
+      (∀ k, k ≤ n → ∃ mid, generateSerial cfg gf sf k st = some (its.take k, mid)) ∧
+      (∀ i (hi : i < its.length), ∃ mid after, generateSerial cfg gf sf i st = some (its.take i, mid) ∧
+        serialItem cfg gf sf mid = some (its[i], after)) ∧
+      (left.draws <:+ st.draws ∧ left.rands <:+ st.rands ∧ left.obs <:+ st.obs) ∧
+      (∀ k, k ≤ n → ∃ used mid : Streams, st = used.app mid ∧
+        ∀ t, generateSerial cfg gf sf k (used.app t) = some (its.take k, t))
+
+theorem C03_full_dataset_holds : C03_full_dataset := fun _ _ _ _ _ _ _ h =>
+  ⟨C03_dataset_count h, C03_dataset_items_ok h,
+   fun _ hk => (C03_dataset_prefix hk h).imp fun _ hm => hm.1,
+   fun i hi => C03_dataset_item_at h i hi,
+   ⟨(C03_dataset_consumes_prefix h).1, (C03_dataset_consumes_prefix h).2.1, (C03_dataset_consumes_prefix h).2.2.1⟩,
+   fun _ hk => C03_dataset_prefix_local hk h⟩
+
 /-! ## non-vacuity -/
 example : (solveItem 2 2 [(0,0,0),(1,0,0),(0,0,1)] (cells 2 2) {} (1,0) (1,1) [(1,0),(0,0),(0,1),(1,1)] 9).toOption
     = some [(1,0),(0,0),(0,1),(1,1)] := by decide
@@ -225,5 +411,61 @@ example : endpointsOK 2 2 [(0,0,0),(1,0,0),(0,0,1)] (cells 2 2) { deadendStart :
 example : (genDfsTop 2 2 (defaultArgs 2 2 false) (some (1, 1)) (List.replicate 16 0) 8).map
     (fun o => (metaComponent 2 2 o.fullyConnected o.visited).length) = some 4 := by decide
 example : StartRejected 2 2 (some (2, 0)) ∧ genDfsTop 2 2 (defaultArgs 2 2 false) (some (2, 0)) (List.replicate 16 0) 8 = none := by decide
+
+/-! ### non-vacuity, dataset level: concrete 2-item datasets on ONE shared stream -/
+/-- gen_dfs, 2x2, default endpoint options, random start -/
+private def exCfg : DatasetCfg :=
+  { rows := 2, cols := 2, gen := .dfs { nAcc := 4, maxDepth := 8, doForks := true, randStack := false } none }
+/-- item 0 uses draws `0,0,0,0,0` (start + 3 dfs choices) and `0,2` (endpoint indices), item 1 the NEXT seven; `7` is left -/
+private def exStreams : Streams :=
+  { draws := [0,0,0,0,0, 0,2, 0,0,1,0,0, 3,1, 7]
+    obs := [⟨(0,0),(1,0),[(0,0),(0,1),(1,1),(1,0)]⟩, ⟨(0,0),(0,1),[(0,0),(1,0),(1,1),(0,1)]⟩, ⟨(0,0),(0,0),[]⟩] }
+private def exItems : List Item :=
+  [{ edges := [(1,0,0),(0,0,1),(1,1,0)], comp := cells 2 2, s := (0,0), e := (1,0), sol := [(0,0),(0,1),(1,1),(1,0)] },
+   { edges := [(0,0,0),(1,1,0),(0,0,1)], comp := cells 2 2, s := (0,0), e := (0,1), sol := [(0,0),(1,0),(1,1),(0,1)] }]
+-- C03_dataset_count / C03_dataset_items_ok / C03_full_dataset: the hypothesis is satisfiable, with two DIFFERENT mazes
+example : generateSerial exCfg 40 9 2 exStreams =
+    some (exItems, { draws := [7], obs := [⟨(0,0),(0,0),[]⟩] }) := by decide
+-- C03_dataset_prefix / C03_dataset_item_at: the run for 1 maze is the first item and leaves item 1's draws
+example : generateSerial exCfg 40 9 1 exStreams =
+    some (exItems.take 1, { draws := [0,0,1,0,0, 3,1, 7], obs := exStreams.obs.drop 1 }) := by decide
+example : serialItem exCfg 40 9 { draws := [0,0,1,0,0, 3,1, 7], obs := exStreams.obs.drop 1 } =
+    some (exItems[1], { draws := [7], obs := [⟨(0,0),(0,0),[]⟩] }) := by decide
+-- the `none` branch is real: a third item fails (stream exhausted), and so does an endpoint draw out of range
+example : generateSerial exCfg 40 9 3 exStreams = none := by decide
+example : generateSerial exCfg 40 9 1 { exStreams with draws := [0,0,0,0,0, 0,4] } = none := by decide
+example : generateSerial exCfg 40 9 1 { exStreams with draws := [0,0,0,0,0, 2,2] } = none := by decide
+-- the assertion of `generate_random_path` on a 1 x n grid: no item
+example : generateSerial { exCfg with rows := 1 } 40 9 1 exStreams = none := by decide
+-- gen_percolation (p = 1/2, fixed start, dead-end end + endpoints_not_equal): the rand stream is shared too — item 0
+-- takes the first 8 doubles, item 1 the next 8; the second maze is NOT fully connected (component of 2 cells)
+private def exCfgP : DatasetCfg :=
+  { rows := 2, cols := 2, gen := .percolation (1,2) (some (0,1)), opts := { deadendEnd := true, notEqual := true } }
+example : generateSerial exCfgP 40 9 2
+    { draws := [2,1, 1,0]
+      rands := [(1,4),(3,4),(1,4),(1,4),(1,4),(3,4),(1,4),(1,4), (3,4),(3,4),(1,4),(1,4),(1,4),(3,4),(1,4),(1,4)]
+      obs := [⟨(1,0),(0,1),[(1,0),(0,0),(0,1)]⟩, ⟨(0,0),(0,1),[(0,0),(0,1)]⟩] } =
+    some ([{ edges := [(0,0,0),(1,0,0),(1,1,0)], comp := [(0,1),(0,0),(1,0),(1,1)], s := (1,0), e := (0,1), sol := [(1,0),(0,0),(0,1)] },
+           { edges := [(1,0,0),(1,1,0)], comp := [(0,1),(0,0)], s := (0,0), e := (0,1), sol := [(0,0),(0,1)] }],
+          { draws := [] }) := by decide
+-- C03_dataset_consumes_prefix: 14 of the 15 draws and 2 of the 3 observations are consumed, `[7]` is the suffix left
+example : ([7] : List Nat) <:+ exStreams.draws ∧ 1 + 2 * 2 ≤ exStreams.draws.length :=
+  ⟨(C03_dataset_consumes_prefix (cfg := exCfg) (gf := 40) (sf := 9) (n := 2) (st := exStreams) (its := exItems)
+      (left := { draws := [7], obs := [⟨(0,0),(0,0),[]⟩] }) (by decide)).1, by decide⟩
+-- C03_dataset_local / C03_dataset_prefix_local: the same 14 draws followed by OTHER draws give the same two items;
+-- the first 7 draws followed by anything give the first item
+example : generateSerial exCfg 40 9 2 { exStreams with draws := [0,0,0,0,0, 0,2, 0,0,1,0,0, 3,1] ++ [5,6], obs := exStreams.obs.take 2 } =
+    some (exItems, { draws := [5,6] }) := by decide
+example : generateSerial exCfg 40 9 1 { draws := [0,0,0,0,0, 0,2] ++ [9,9,9], obs := exStreams.obs.take 1 } =
+    some (exItems.take 1, { draws := [9,9,9] }) := by decide
+-- C03_dataset_no_path_error: its hypothesis is satisfiable
+example : (genMaze 2 2 exCfg.gen exStreams.draws [] 40).isSome = true := by decide
+-- C03_dataset_split / C03_dataset_deterministic: instances
+example : generateSerial exCfg 40 9 (1 + 1) exStreams =
+    (generateSerial exCfg 40 9 1 exStreams).bind fun r =>
+      (generateSerial exCfg 40 9 1 r.2).map fun q => (r.1 ++ q.1, q.2) := C03_dataset_split exCfg 40 9 1 1 exStreams
+example : DatasetItemOK exCfg exItems[0] :=
+  C03_dataset_items_ok (cfg := exCfg) (gf := 40) (sf := 9) (n := 2) (st := exStreams) (its := exItems)
+    (left := { draws := [7], obs := [⟨(0,0),(0,0),[]⟩] }) (by decide) _ (by decide)
 
 end MZ
